@@ -420,7 +420,7 @@ def layout_prov(ctx):
                                % (role, sorted(used)), f=f, node=st,
                                why='table with columns %s.states is built from block(s) %s'
                                    % (role, sorted(used)))
-    ctx.floor('LAYOUT-PROV', n, 14, 'block stores/reads')
+    ctx.floor('LAYOUT-PROV', n, 10, 'block stores/reads')
 
 
 def _enclosing_stmt(f, node):
@@ -786,3 +786,48 @@ def corr_pair(ctx):
     ctx.ob('CORR-PAIR', seen == {'gyro': 1, 'accel': 1}, None,
            'both sensor models are applied exactly once', f=f, key='both',
            why='_correct_increments applies the sensor models %s' % seen)
+
+
+# ------------------------------------------------------------------- SD-TRANSFORM
+def sd_transform(ctx):
+    ctx.rule('SD-TRANSFORM', 'feedforward result: the output transform that maps the covariance to '
+             'standard deviations is evaluated at the same trajectory as the one that maps the '
+             'error estimates (the sigmas describe the reported errors)')
+    repo = ctx.repo
+    f = repo.function('filters._compute_feedforward_result')
+    ctx.touch(f)
+    mod = f.module
+    found = []       # (actual argument text in f, via, node)
+
+    def scan(g, bind, via, depth):
+        for n in ast.walk(g.node):
+            if not isinstance(n, ast.Call):
+                continue
+            if isinstance(n.func, ast.Attribute) and n.func.attr == 'transform_to_output' and n.args:
+                a = norm_text(n.args[0])
+                found.append((bind.get(a, a if g is f else '<%s of %s>' % (a, g.name)), via, n))
+                continue
+            q = g.module.resolve(n.func, g.local_names())
+            h = repo.lookup(q) if q and q.startswith('pyins') else None
+            if isinstance(h, FunctionInfo) and h.module is mod and depth < 2 and h is not g:
+                b2 = {}
+                for i, a in enumerate(n.args):
+                    if i < len(h.params):
+                        t = norm_text(a)
+                        b2[h.params[i]] = bind.get(t, t)
+                for kw in n.keywords:
+                    if kw.arg:
+                        t = norm_text(kw.value)
+                        b2[kw.arg] = bind.get(t, t)
+                scan(h, b2, via + [h.name], depth + 1)
+    scan(f, {}, [], 0)
+    ctx.floor('SD-TRANSFORM', len(found), 1, 'output-transform evaluations')
+    args = sorted({a for a, _, _ in found})
+    ok = len(args) == 1
+    node = found[-1][2]
+    ctx.ob('SD-TRANSFORM', ok, None, 'all output transforms of the feedforward result are evaluated '
+           'at `%s`' % args[0], f=f, node=node, key='one-point',
+           why='the feedforward result evaluates transform_to_output at different trajectories %s '
+               '(%s): errors and their standard deviations are mapped to output coordinates with '
+               'different matrices' % (args, '; '.join(
+                   '%s%s' % (a, (' via ' + '/'.join(v)) if v else '') for a, v, _ in found)))
